@@ -609,11 +609,20 @@ pub fn gen_scenario_full(seed: u64, idx: usize, big: bool, big_stderr: bool, hug
             if stderr_len >= 65_536 {
                 sub = format!("{}-stderr>=64k", sub);
             }
-            let mut stderr = String::new();
+            let mut stderr: Vec<u8> = Vec::new();
             let mut i = 0;
+            // one time in three some lines are not valid UTF-8 (a Latin-1 file name in a warning)
+            let latin1 = rng.chance(1, 3);
             while stderr.len() < stderr_len {
-                stderr.push_str(&format!("warning: something happened, line {}\n", i));
+                if latin1 && i % 5 == 1 {
+                    stderr.extend_from_slice(b"warning: in the working copy of 'caf\xe9.txt', LF will be replaced by CRLF\n");
+                } else {
+                    stderr.extend_from_slice(format!("warning: something happened, line {}\n", i).as_bytes());
+                }
                 i += 1;
+            }
+            if latin1 && stderr_len > 0 {
+                sub = format!("{}-latin1stderr", sub);
             }
             stderr_may = true;
             spec.child = Some(ChildSetup { names: vec!["git".into(), "rg".into()], stdout: out.into(), stderr: stderr.into(), stderr_first: rng.chance(1, 2), exit: st, git_version: "git version 2.45.1".into() });
